@@ -20,6 +20,11 @@ NA = {
 
 # property -> (level category, level text, level note, technique, design ref)
 CLAIMED = {
+ "C18": ("exploration",
+         "N = 2..6 seeded caller tasks (writers, readers, encoders, decoders, Marshal/Unmarshal, table and catalog helpers), each with its own ion-go objects, share shared symbol tables, Adjust()ed views, one catalog, the system table and Go struct types. Part A: the tasks run as parked goroutines under a seeded scheduler that picks who runs next at every Source.Read / Sink.Write / catalog lookup (one pick list = one replayable interleaving; six scheduling policies); each task's output must equal its solo baseline and a public-API digest of every shared object must be unchanged at every yield and at the end. Part B: the same seeded task sets run free (no harness synchronisation between start and join) in a -race build at GOMAXPROCS 16 and 2; any race report with an ion-go frame fails the check.",
+         "Part A cannot see data races (a parked hand-off is a happens-before edge); part B's schedule is the Go runtime's and is not controlled, its oracle is the race detector's happens-before analysis (bounded history, can miss). Solo baseline is ion-go's own output.",
+         "deterministic simulation: seeded parked-goroutine scheduler over seam-call yield points with solo-baseline and shared-state-digest oracles; plus the same seeded workloads free-running under the Go race detector",
+         "DESIGN.md section 3 C18"),
  "C06": ("exploration",
          "Seeded simulation of a damaged stored stream read by an arbitrary caller: valid and hostile-producer documents (typed nulls / wrong types / extreme numbers in every symbol-table slot, $n and $0 symbols) hit by 0..3 stored-medium faults (bit flip, byte set, zeroed / lost / duplicated / spliced block, truncation, length / exponent / ID fields replaced by boundary values through the byte map), plus every byte string of length <= 3 over a 24-byte alphabet; each driven by seeded random call sequences over all Reader methods, a full traversal, Decoder.Decode to exhaustion and DecodeTo into a zoo of 40 Go target types, under whole and chunked simulated delivery, with panic, reads-after-end, progress, allocation, worker-death (write-ahead + isolated re-run) and wall-clock watchdogs.",
          "Returned errors are always acceptable (acceptance/rejection is C07). Allocation bound: 32 MiB + 4 KiB x input length. Seam-free infinite loops are caught by a wall-clock stall watchdog confirmed by an isolated re-run.",
